@@ -79,5 +79,8 @@ FIXED.append("fixed: property=C02 26a16c9 MedicationKnowledge.kinetics.lethalDos
 
 FIXED.append("fixed: property=C02 e573670 Device.udiCarrier.carrierAIDC / carrierHRF failed with ErrInvalidField: the snake_case guard rejected names with consecutive capitals")
 
+FIXED.append("fixed: property=C12 e609136 Account.coverage[0] (a nested component) answered is Coverage / is DomainResource with true and is BackboneElement / is Element with false; MarketingStatus, Population, ProdCharacteristic, ProductShelfLife, SubstanceAmount had DomainResource as parent")
+FIXED.append("fixed: property=C12 50e9002 x is Population / ProdCharacteristic / SubstanceAmount did not compile: the three data types were missing from the element registry")
+
 if __name__ == '__main__':
     write()
